@@ -13,6 +13,7 @@ mod mpcrun;
 mod replay;
 mod schema;
 mod shard;
+mod skel;
 mod srv;
 mod srvx;
 mod util;
